@@ -162,9 +162,9 @@ def run_tlc(module, cfg, env, wd, workers=8, timeout=1500, heap="4g", simulate=N
 # ------------------------------------------------------------------------------------------------
 # harness
 
-def harness(mode, inp, outp, profile="dev", timeout=1800):
+def harness(mode, inp, outp, profile="dev", timeout=1800, env=None):
     b = build_harness(profile)
-    p = sh([b, mode, inp, outp], timeout=timeout, check=False)
+    p = sh([b, mode, inp, outp], timeout=timeout, check=False, env=env)
     if p.returncode != 0:
         raise ToolError("harness %s failed: %s" % (mode, p.stdout[-2000:]))
 
@@ -427,9 +427,11 @@ def pair_job(run, name, scope, workers=8, timeout=1500):
 PROG_RE = re.compile(r'^<<"PROG", (".*")>>\s*$')
 
 
-def p2_job(run, name, scope, prop, num=1000, exhaustive=False, profile="dev", workers=4, timeout=1200, gen="SF"):
+def p2_job(run, name, scope, prop, num=1000, exhaustive=False, profile="dev", workers=4, timeout=1200, gen="SF", twice=False):
     """Pipeline P2: TLC generates behaviours of SF.tla, the harness replays them on the real crate,
-    Trace_SF.tla validates the recorded answers."""
+    Trace_SF.tla validates the recorded answers.  twice: every program is executed in two processes - on a thread of its own in
+    generation order, and on one shared thread in reverse order; Trace_SF requires the same answers (`res2`), i.e. nothing that
+    other instances, earlier programs or the thread did may show."""
     wd = run.wd
     sp = os.path.join(wd, name + ".scope.json")
     json.dump(scope, open(sp, "w"))
@@ -453,7 +455,23 @@ def p2_job(run, name, scope, prop, num=1000, exhaustive=False, profile="dev", wo
     with open(inp, "w") as f:
         for i, pr in enumerate(progs):
             f.write(json.dumps({"id": i + 1, "unit": scope.get("unit", 1), "slots": scope["slots"], "float": scope.get("float", "f64"), "prog": pr}) + "\n")
-    harness("run", inp, outp, profile)
+    if twice:
+        out1, out2, inp2 = outp + ".1", outp + ".2", inp + ".rev"
+        harness("run", inp, out1, profile, env={"SFV_ISOLATE": "1"})
+        lines = open(inp).read().splitlines()
+        open(inp2, "w").write("\n".join(reversed(lines)) + "\n")
+        harness("run", inp2, out2, profile, env={"SFV_ISOLATE": "0"})
+        second = {}
+        for ln in open(out2):
+            e = json.loads(ln)
+            second[e["id"]] = e["res"]
+        with open(outp, "w") as f:
+            for ln in open(out1):
+                e = json.loads(ln)
+                e["res2"] = second[e["id"]]
+                f.write(json.dumps(e) + "\n")
+    else:
+        harness("run", inp, outp, profile)
     res = run_tlc("Trace_SF", "Trace.cfg", {"TRACE": outp, "PROP": prop}, wd, workers=1, timeout=timeout, dfs=True)
     if res["tally"].get("programs") != len(progs):
         raise ToolError("%s: %s programs judged, %d recorded" % (name, res["tally"].get("programs"), len(progs)))
@@ -474,6 +492,9 @@ def p2_job(run, name, scope, prop, num=1000, exhaustive=False, profile="dev", wo
             kinds = sorted({op[2].get("k", "?") for op in pr if op[0] == "new"})
             detail = {"program": pr, "unit": scope.get("unit", 1)}
             replay = {"kind": "p2", "prog": pr, "unit": scope.get("unit", 1), "slots": scope["slots"], "profile": profile, "prop": prop}
+            if clause.startswith("answer-depends-on-other"):
+                # the answers of this program differ between two executions of the whole set: the set is the context
+                replay.update(twice=True, index=line, all_progs=progs, float=scope.get("float", "f64"))
             run.add_violation("+".join(kinds), clause, None, detail, replay)
         if len(run.samples) < 12:
             run.samples.append({"job": name, "program": progs[len(progs) // 2]})
